@@ -232,6 +232,13 @@ impl<'tcx> Interp<'tcx> {
                 }
                 o => o,
             },
+            IterV::Zip { a, b } => match self.iter_next(st, a) {
+                Next::Item(va, ma) => match self.iter_next(st, b) {
+                    Next::Item(vb, mb) => Next::Item(Val::Tuple(Rc::new(vec![va, vb])), ma || mb),
+                    o => o,
+                },
+                o => o,
+            },
             IterV::Take { inner, n } => {
                 if *n == 0 {
                     return Next::Done;
@@ -962,6 +969,11 @@ impl<'tcx> Interp<'tcx> {
         if n == "core::iter::Iterator::enumerate" {
             let inner = Box::new(self.iter_of(st, a.get(0)?)?);
             return one(Val::Opq(Opaque::Iter(Box::new(IterV::Enumerate { inner, count: 0 }))));
+        }
+        if n == "core::iter::Iterator::zip" {
+            let ia = Box::new(self.iter_of(st, a.get(0)?)?);
+            let ib = Box::new(self.iter_of(st, a.get(1)?)?);
+            return one(Val::Opq(Opaque::Iter(Box::new(IterV::Zip { a: ia, b: ib }))));
         }
         if n == "core::iter::Iterator::take" {
             let inner = Box::new(self.iter_of(st, a.get(0)?)?);
